@@ -1,0 +1,1 @@
+//! Hooks for property C05 (empty until needed).
